@@ -107,6 +107,9 @@ func (p *TermPool) mk(op, name string, sort Sort, args ...*Term) *Term {
 
 func Const(name string, s Sort) *Term {
 	t := P.mk("const", name, s)
+	if name == "alloc0" || strings.HasPrefix(name, "alloc.") {
+		hubCache[t.id] = true
+	}
 	return t
 }
 
